@@ -126,6 +126,10 @@ func SetChaos(seed uint64) {
 	mode.Store(Chaos)
 }
 
+// ChaosCrash, if set, receives panics that escape goroutines started by goat
+// in chaos mode (in production they terminate the process).
+var ChaosCrash func(site, value, stack string)
+
 var chaosSeed atomic.Uint64
 var chaosCtr atomic.Uint64
 
@@ -457,6 +461,17 @@ func Go(site string, fn func()) {
 		return
 	case Chaos:
 		go func() {
+			defer func() {
+				if r := recover(); r != nil {
+					if h := ChaosCrash; h != nil {
+						buf := make([]byte, 16<<10)
+						buf = buf[:runtime.Stack(buf, false)]
+						h(site, fmt.Sprint(r), string(buf))
+						return
+					}
+					panic(r)
+				}
+			}()
 			chaosYield(site)
 			fn()
 		}()
@@ -562,6 +577,9 @@ type TaskView struct {
 // Snapshot returns all tasks in creation order. Must be called when the
 // system is quiescent (after synctest.Wait).
 func (w *World) Snapshot() []TaskView {
+	if w == nil {
+		return nil
+	}
 	w.mu.Lock()
 	defer w.mu.Unlock()
 	out := make([]TaskView, 0, len(w.tasks))
@@ -596,6 +614,9 @@ func (w *World) Snapshot() []TaskView {
 
 // Enabled appends the parked, enabled tasks (creation order) to dst.
 func (w *World) Enabled(dst []*Task) []*Task {
+	if w == nil {
+		return dst
+	}
 	w.mu.Lock()
 	defer w.mu.Unlock()
 	for _, t := range w.tasks {
@@ -646,6 +667,9 @@ func (w *World) Abort() {
 
 // Crashes returns recorded crashes.
 func (w *World) Crashes() []Crash {
+	if w == nil {
+		return nil
+	}
 	w.mu.Lock()
 	defer w.mu.Unlock()
 	return append([]Crash(nil), w.crashes...)
@@ -653,6 +677,9 @@ func (w *World) Crashes() []Crash {
 
 // Events returns a copy of the event counters, keys sorted.
 func (w *World) Events() ([]string, map[string]int) {
+	if w == nil {
+		return nil, nil
+	}
 	w.mu.Lock()
 	defer w.mu.Unlock()
 	m := make(map[string]int, len(w.events))
@@ -667,6 +694,9 @@ func (w *World) Events() ([]string, map[string]int) {
 
 // EventCount returns one counter.
 func (w *World) EventCount(site string) int {
+	if w == nil {
+		return 0
+	}
 	w.mu.Lock()
 	defer w.mu.Unlock()
 	return w.events[site]
@@ -674,6 +704,9 @@ func (w *World) EventCount(site string) int {
 
 // TrackedObjects returns tracked objects of a kind, in creation order.
 func (w *World) TrackedObjects(kind string) []any {
+	if w == nil {
+		return nil
+	}
 	w.mu.Lock()
 	defer w.mu.Unlock()
 	var out []any
@@ -687,6 +720,9 @@ func (w *World) TrackedObjects(kind string) []any {
 
 // Stats returns yield counters.
 func (w *World) Stats() (yields, unregistered, lockMiss int64, tasks int) {
+	if w == nil {
+		return
+	}
 	w.mu.Lock()
 	defer w.mu.Unlock()
 	return w.TotalYields, atomic.LoadInt64(&w.Unregistered), w.LockModelMiss, len(w.tasks)
